@@ -38,6 +38,36 @@ def _docsym_module():
     return '\n'.join(out) + '\n', names
 
 
+def _wssym_module():
+    """append_workspace_symbol_for_element / compute_element_properties / scan_project of workspace_symbols.rs and
+    file_path_to_uri of server.rs, cut verbatim (request handler and server state dropped)."""
+    from rustcut import Source
+    p = os.path.join(common.repo_root(), 'dora-language-server/src/workspace_symbols.rs')
+    S = Source(p)
+    uses = [l for l in S.src.split('\n') if l.startswith('use ') and 'lsp_server' not in l and 'crate::server' not in l]
+    i = S.src.find('#[cfg(test)]')
+    end = i if i >= 0 else len(S.src)
+    names = [n for (n, pos) in S.fns_in(0, end, 0) if n != 'workspace_symbol_request']
+    if 'append_workspace_symbol_for_element' not in names:
+        raise RuntimeError('append_workspace_symbol_for_element not found in workspace_symbols.rs')
+    out = ['#![allow(unused)]'] + uses + ['use std::path::Path;', 'use std::str::FromStr;', 'use std::sync::Arc;', 'use lsp_types::Uri;', 'use url::Url;', '']
+    S2 = Source(os.path.join(common.repo_root(), 'dora-language-server/src/server.rs'))
+    out.append(S2.cut_fn('file_path_to_uri', 0, len(S2.src), depth=0)['text'].replace('pub(crate) fn', 'fn'))
+    out.append('')
+    for n in names:
+        out.append(S.cut_fn(n, 0, end, depth=0)['text'])
+        out.append('')
+    # driver: the same steps as scan_project, on an in-memory program (what the crate's own test helper does)
+    out.append('pub fn vx_scan_ws(content: Arc<String>) -> Vec<WorkspaceSymbol> {\n'
+               '    let mut sa = Sema::new(SemaCreationParams::new().set_program_content(content));\n'
+               '    sa.parse_project();\n'
+               '    let module = sa.module(sa.program_module_id());\n'
+               '    let mut symbols = Vec::new();\n'
+               '    for &element_id in module.children() { append_workspace_symbol_for_element(&sa, element_id, &mut symbols); }\n'
+               '    symbols\n}')
+    return '\n'.join(out) + '\n'
+
+
 def _link_pkgs():
     """Sema::new looks for a `pkgs` directory next to an ancestor of the running executable: give the runner the working tree's."""
     d = common.ensure_dir(os.path.join(common.BUILD, 'target-runners', 'release'))
@@ -54,7 +84,7 @@ def _runner_spec():
     docsym, _names = _docsym_module()
     _link_pkgs()
     return dict(name='c20', deps={'dora-parser': 'dora-parser', 'dora-frontend': 'dora-frontend'}, lock=True,
-                extra_files={'position.rs': _position_module(), 'docsym.rs': docsym}, extra_deps=['lsp-types = "*"'],
+                extra_files={'position.rs': _position_module(), 'docsym.rs': docsym, 'wssym.rs': _wssym_module()}, extra_deps=['lsp-types = "*"', 'url = "*"'],
                 budget_quick_ms=4000, budget_thorough_ms=90000)
 
 
@@ -86,7 +116,8 @@ def run(tier):
     ]
     not_decided = ['document symbol ranges are NOT under contract (they need the front end): scan_single_file / element_to_document_symbol / compute_element_propertiees are cut verbatim from '
                    'document_symbols.rs and EXECUTED by the replay runner on generated program-like texts (ranges inside the document, selection inside range, children inside parents, no panic): sampled',
-                   'workspace symbols, goto-definition, server.rs entry points',
+                   'workspace symbols: append_workspace_symbol_for_element / compute_element_properties / file_path_to_uri cut verbatim and executed the same way (location ranges inside the document, no panic): sampled',
+                   'goto-definition, server.rs request handlers',
                    'range_to_span (unused; `end - start` underflows for reversed ranges)']
     return vprop.run_verus_property(PROP, tier, units, runner=runner, assumptions=assumptions, samples=samples,
                                     not_decided=not_decided, pre_undecided=pre_und)
@@ -100,6 +131,6 @@ def replay(rp):
         return 1
     spec = _runner_spec()
     runner = common.build_runner(spec['name'], spec['deps'], lock=True, extra_files=spec['extra_files'], extra_deps=spec['extra_deps'])
-    rc, out, err, _ = common.run_cmd([runner, 'replay-symbols' if fi.get('kind') == 'symbols' else 'replay', fi['text_hex']])
+    rc, out, err, _ = common.run_cmd([runner, {'symbols': 'replay-symbols', 'ws-symbols': 'replay-ws-symbols'}.get(fi.get('kind'), 'replay'), fi['text_hex']])
     print(out.strip())
     return 1 if rc != 0 else 0
